@@ -290,13 +290,284 @@ def build_axes(ck, T):
     ck.explore(f'{IND}.IndexOperator.reduce', reduce_, T, contracts={AXES: indexed_axes_contract})
 
 
+# ====================================================================== mv, PackOperator, StokesPyTree.__getitem__
+def indexed_by(r, x, ind: SSeq):
+    """r is the NumPy selection x[ind] (dependency contract of indexing), as a python bool / Bool term"""
+    if not (isinstance(r, IX.XLeaf) and hasattr(r, 'indexed_from') and r.indexed_from[0] is x):
+        return False
+    return IX.idx_seq_eq(r.indexed_from[1], ind)
+
+
+def build_mv(ck, T):
+    P = ck.P
+
+    def index_mv(S):
+        S.oracle = {'name': 'select'}
+        ind = IX.idx_seq(S, 'indices')
+        S.inputs['kinds'] = ind.map(lambda x: IX.f_kind(x.term))
+        nleaves = 1 + S.choose(2)
+        S.inputs['nleaves'] = nleaves
+        xs = [leaf(f'x{i}') for i in range(nleaves)]
+        x = xs[0] if nleaves == 1 else ST.StructV(SSeq.lift(xs, 'list'))
+        o = S.new('IndexOperator', indices=ind, _in_structure=x, _out_structure=leaf('xout'), unique_indices=S.bool('unique'))
+        out = S.call(S.I.getattr(o, 'mv'), [x])
+        if not out.normal:
+            S.oblige('exc', False, tag=f'no-exception-{out.value.name}')
+            return
+        r = out.value
+        rs = [r] if nleaves == 1 else (r.leaves.py_items() if isinstance(r, ST.StructV) and r.leaves.is_concrete_len() else None)
+        S.oblige('post', rs is not None and len(rs) == nleaves and (nleaves == 1 or z_eq(r.treedef, x.treedef) is True),
+                 tag='same-tree-structure')
+        if rs is None or len(rs) != nleaves:
+            return
+        for i, (ri, xi) in enumerate(zip(rs, xs)):
+            S.oblige('post', indexed_by(ri, xi, ind), tag=f'leaf-{i}-is-leaf[self.indices]')
+    ck.explore(f'{IND}.IndexOperator.mv', index_mv, T)
+
+    def structures(S):
+        xin, xout = leaf('xin'), leaf('xout')
+        o = S.new('IndexOperator', indices=IX.idx_seq(S, 'indices'), _in_structure=xin, _out_structure=xout,
+                  unique_indices=S.bool('unique'))
+        a = S.call(S.I.getattr(o, 'in_structure'), [])
+        b = S.call(S.I.getattr(o, 'out_structure'), [])
+        S.oblige('post', a.normal and a.value is xin, tag='in_structure-returns-the-stored-structure')
+        S.oblige('post', b.normal and b.value is xout, tag='out_structure-returns-the-stored-structure')
+    ck.explore(f'{IND}.IndexOperator.in_structure', structures, T)
+
+    def pack_mv(S):
+        S.oracle = {'name': 'pack'}
+        mask = IX.IdxV(z3.Const('mask', IX.Idx))
+        S.assume(IX.is_mask(mask.term))
+        kind = S.choose(3)
+        S.inputs['tree'] = ['leaf', 'stokes', 'list'][kind]
+        if kind == 0:
+            x = leaf('x')
+        elif kind == 1:
+            cname = ['StokesIPyTree', 'StokesQUPyTree', 'StokesIQUPyTree', 'StokesIQUVPyTree'][S.choose(4)]
+            comps = [c.lower() for c in {'StokesIPyTree': 'I', 'StokesQUPyTree': 'QU', 'StokesIQUPyTree': 'IQU',
+                                         'StokesIQUVPyTree': 'IQUV'}[cname]]
+            x = S.new(cname, **{c: leaf('x_' + c) for c in comps})
+        else:
+            x = B.PyList([leaf('x0'), leaf('x1')])
+        o = S.new('PackOperator', mask=mask, _in_structure=x)
+        out = S.call(S.I.getattr(o, 'mv'), [x])
+        if kind == 2:
+            # a generic container pytree: the property wants every leaf indexed by the mask
+            ok = out.normal and isinstance(out.value, B.PyList) and out.value.seq is None and len(out.value.items) == 2 \
+                and all(indexed_by(r, xi, SSeq.lift((mask,))) is True for r, xi in zip(out.value.items, x.items))
+            S.oblige('post', bool(ok), finding=F_PACK, tag='every-leaf-of-a-container-pytree-is-indexed-by-the-mask')
+            return
+        if not out.normal:
+            S.oblige('exc', False, tag=f'no-exception-{out.value.name}')
+            return
+        r = out.value
+        if kind == 0:
+            S.oblige('post', indexed_by(r, x, SSeq.lift((mask,))), tag='leaf-is-leaf[mask]')
+        else:
+            ok = isinstance(r, Obj) and r.cls is x.cls
+            S.oblige('post', bool(ok), tag='same-stokes-class')
+            if ok:
+                for c in comps:
+                    S.oblige('post', indexed_by(r.fields.get(c), x.fields[c], SSeq.lift((mask,))), tag=f'component-{c}-is-indexed-by-the-mask')
+    ck.explore(f'{LIN}.PackOperator.mv', pack_mv, T)
+
+    def stokes_getitem(S):
+        S.oracle = {'name': 'pack'}
+        idx = IX.IdxV(z3.Const('index', IX.Idx))
+        S.inputs['index_kind'] = IX.f_kind(idx.term)
+        names = {'StokesIPyTree': 'I', 'StokesQUPyTree': 'QU', 'StokesIQUPyTree': 'IQU', 'StokesIQUVPyTree': 'IQUV'}
+        cname = list(names)[S.choose(4)]
+        comps = [c.lower() for c in names[cname]]
+        x = S.new(cname, **{c: leaf('x_' + c) for c in comps})
+        out = S.call(S.I.getattr(x, '__getitem__'), [idx])
+        if not out.normal:
+            S.oblige('exc', False, tag=f'no-exception-{out.value.name}')
+            return
+        r = out.value
+        ok = isinstance(r, Obj) and r.cls is x.cls and set(r.fields) == set(comps)
+        S.oblige('post', bool(ok), tag='same-stokes-class-same-components')
+        if ok:
+            for c in comps:
+                S.oblige('post', indexed_by(r.fields.get(c), x.fields[c], SSeq.lift((idx,))), tag=f'component-{c}-is-component[index]')
+    ck.explore('furax.landscapes.StokesPyTree.__getitem__', stokes_getitem, T)
+
+
+# ====================================================================== rules
+def mk_index_op(S, tag, ind, xin, unique):
+    return S.new('IndexOperator', indices=ind, _in_structure=xin, _out_structure=leaf('xout_' + tag), unique_indices=unique)
+
+
+def build_rules(ck, T):
+    P = ck.P
+
+    # ---------------------------------------------------------------- AbstractBinaryRule.check on the three pairs
+    def check(S):
+        S.oracle = {'name': 'rules'}
+        rname = ['IndexTransposeRule', 'TransposeIndexRule', 'PackUnpackRule'][S.choose(3)]
+        S.inputs['rule'] = rname
+        xin = leaf('xin')
+        if rname == 'PackUnpackRule':
+            mk = lambda t: S.new('PackOperator', mask=IX.IdxV(z3.Const('mask_' + t, IX.Idx)), _in_structure=xin)   # noqa: E731
+        else:
+            mk = lambda t: mk_index_op(S, t, IX.idx_seq(S, 'indices_' + t), xin, S.bool('unique_' + t))           # noqa: E731
+        p, q = mk('p'), mk('q')
+        tp, tq = S.new('TransposeOperator', operator=p), S.new('TransposeOperator', operator=q)
+        pairs = {'p@pT': (p, tp), 'pT@p': (tp, p), 'p@qT': (p, tq), 'qT@p': (tq, p), 'p@q': (p, q), 'pT@qT': (tp, tq)}
+        key = list(pairs)[S.choose(len(pairs))]
+        S.inputs['pair'] = key
+        left, right = pairs[key]
+        rule = Obj(P.cls(rname))
+        out = S.call(S.I.getattr(rule, 'check'), [left, right])
+        expected = {'IndexTransposeRule': 'p@pT', 'TransposeIndexRule': 'pT@p', 'PackUnpackRule': 'p@pT'}[rname]
+        if key == expected:
+            S.oblige('post', out.normal, tag=f'{rname}-accepts-an-operator-next-to-its-own-transpose')
+        else:
+            S.oblige('post', out.raised('NoReduction'), tag=f'{rname}-declines-{key}')
+    ck.explore('furax._base.rules.AbstractBinaryRule.check', check, T)
+
+    # ---------------------------------------------------------------- IndexTransposeRule.apply:  P @ P.T -> []
+    def index_transpose(S):
+        S.oracle = {'name': 'rules'}
+        ind = IX.idx_seq(S, 'indices')
+        S.inputs['kinds'] = ind.map(lambda x: IX.f_kind(x.term))
+        flag = S.bool('callers_flag')        # unique_indices=True passed by the caller (False when omitted)
+        # class invariant established by __init__ (scenario `init`, post unique_indices-...)
+        unique = z3.If(zbool(all_basic(ind)), z3.BoolVal(True), flag)
+        xin = leaf('xin')
+        p = mk_index_op(S, 'p', ind, xin, unique)
+        tp = S.new('TransposeOperator', operator=p)
+        rule = Obj(P.cls('IndexTransposeRule'))
+        out = S.call(S.I.getattr(rule, 'apply'), [p, tp])
+        never_twice = z_or(all_basic(ind), flag)      # LA5 side condition: no input element is selected twice
+        if out.normal:
+            S.oblige('post', is_empty_list(out.value), tag='rewrites-to-the-empty-product')
+            S.oblige('post', never_twice, tag='fires-only-if-no-element-is-selected-twice (LA5)')
+        elif out.raised('NoReduction'):
+            S.oblige('post', z_not(never_twice), tag='declines-only-if-an-integer-array-without-uniqueness-promise')
+        else:
+            S.oblige('exc', False, tag=f'undeclared-{out.value.name}')
+    ck.explore(f'{IND}.IndexTransposeRule.apply', index_transpose, T)
+
+    # ---------------------------------------------------------------- PackUnpackRule.apply
+    def pack_unpack(S):
+        S.oracle = {'name': 'pack'}
+        mask = IX.IdxV(z3.Const('mask', IX.Idx))
+        S.assume(IX.is_mask(mask.term))
+        p = S.new('PackOperator', mask=mask, _in_structure=leaf('xin'))
+        tp = S.new('TransposeOperator', operator=p)
+        rule = Obj(P.cls('PackUnpackRule'))
+        out = S.call(S.I.getattr(rule, 'apply'), [p, tp])
+        S.oblige('post', out.normal and is_empty_list(out.value), tag='rewrites-to-the-empty-product (LA5: a mask never selects twice)')
+    ck.explore(f'{LIN}.PackUnpackRule.apply', pack_unpack, T)
+
+    # ---------------------------------------------------------------- TransposeIndexRule.apply:  P.T @ P -> Dg(mult)
+    def transpose_index(S):
+        S.oracle = {'name': 'multiplicities'}
+        ind = IX.idx_seq(S, 'indices')
+        S.inputs['kinds'] = ind.map(lambda x: IX.f_kind(x.term))
+        n = to_z3(ind.length)
+        S.assume(wf_indices(ind))
+        uniq_case = S.choose(2)           # 0: not unique, 1: unique_indices set (finding: pair left unreduced)
+        flag = S.bool('callers_flag')
+        basic = zbool(all_basic(ind))
+        S.assume(z3.Or(basic, flag) if uniq_case == 1 else z3.And(z3.Not(basic), z3.Not(flag)))
+        S.inputs['unique'] = bool(uniq_case)
+        unique = z3.If(basic, z3.BoolVal(True), flag)
+        nleaves = 1 + S.choose(2)
+        S.inputs['nleaves'] = nleaves
+        xs = [leaf(f'x{i}') for i in range(nleaves)]
+        xin = xs[0] if nleaves == 1 else ST.StructV(SSeq.lift(xs, 'list'))
+        e = fresh_int('e')
+        S.assume(ellipsis_position(ind, e))
+        for xl in xs:
+            S.assume(xl.wf())
+            # in-bounds: the tuple addresses existing axes of every leaf
+            S.assume(n - z3.If(e < n, 1, 0) <= ST.f_ndim(xl.term))
+        p = mk_index_op(S, 'p', ind, xin, unique)
+        tp = S.new('TransposeOperator', operator=p)
+        rule = Obj(P.cls('TransposeIndexRule'))
+        out = S.call(S.I.getattr(rule, 'apply'), [tp, p])
+        arr = ind_array(S.run, ind)
+        R = lambda q: IX.Rank(arr, n, e, q)          # noqa: E731
+        naxes = R(n)                                  # number of indexed axes (ghost; linked by the callee contract)
+        same_shapes = True if nleaves == 1 else xs[0].shape.eq(xs[1].shape)
+        if out.raised('NoReduction'):
+            legit = z_or(naxes > 1, naxes == 0, z_not(same_shapes))
+            if uniq_case == 1:
+                # the property wants the diagonal of multiplicities for every single indexed axis
+                S.oblige('post', legit, finding=F_UNIQUE, hint=(n == 1),
+                         tag='declines-only-for-several-indexed-axes-or-leaf-shapes (unique_indices set)')
+            else:
+                S.oblige('post', legit, tag='declines-only-for-several-indexed-axes-or-leaf-shapes')
+            return
+        if not out.normal:
+            S.oblige('exc', False, tag=f'undeclared-{out.value.name} (a single non-unique indexed axis is an integer array inside the leaf rank)')
+            return
+        r = out.value
+        ok = isinstance(r, B.PyList) and r.seq is None and len(r.items) == 1 and isinstance(r.items[0], Obj) \
+            and r.items[0].cls.name == 'DiagonalOperator'
+        S.oblige('post', bool(ok), tag='rewrites-to-one-DiagonalOperator')
+        if not ok:
+            return
+        d = r.items[0]
+        S.oblige('post', z_and(naxes == 1, same_shapes), tag='fires-only-for-one-indexed-axis-and-one-leaf-shape')
+        S.oblige('post', d.fields.get('_in_structure') is xin, tag='diagonal-acts-on-the-input-structure')
+        # the indexed position ppos and its axis (counted from the end after the ellipsis)
+        ppos = fresh_int('ppos')
+        S.assume(z3.And(0 <= ppos, ppos < n, ppos != e, IX.f_kind(arr[ppos]) != IX.K_FULL))     # exists: naxes == 1 (ghost witness)
+        axis = z3.If(ppos < e, ppos, ppos - n)
+        dest = d.fields.get('axis_destination')
+        S.oblige('post', isinstance(dest, tuple) and len(dest) == 1 and z_eq(dest[0], axis), tag='diagonal-laid-on-the-indexed-axis')
+        t = arr[ppos]
+        cov = d.fields.get('_diagonal')
+        okc = isinstance(cov, IX.ArrV) and 'scatter' in cov.ghost
+        S.oblige('post', bool(okc), tag='diagonal-values-are-a-scatter-add')
+        if not okc:
+            return
+        x0 = xs[0]
+        nd = ST.f_ndim(x0.term)
+        size = ST.f_shape(x0.term)[z3.If(axis < 0, axis + nd, axis)]          # length of the indexed axis
+        S.inputs['size'] = size
+        S.assume(size >= 1)
+        S.oblige('post', z_eq(cov.length, size), tag='one-multiplicity-per-position-of-the-indexed-axis')
+        w = fresh_int('w')
+        # in-bounds index array (the property's quantifier)
+        S.assume(z3.ForAll([w], z3.Implies(IX.Mult(t, w) > 0, z3.And(-size <= w, w < size)), patterns=[IX.Mult(t, w)]))
+        alias = z3.Exists([w], z3.And(0 <= w, w < size, IX.Mult(t, w) > 0, IX.Mult(t, w - size) > 0))
+        alias_case = S.choose(2)
+        S.assume(alias if alias_case == 1 else z3.Not(alias))
+        S.inputs['negative_aliases'] = bool(alias_case)
+        v = S.int('v')
+        S.assume(z3.And(0 <= v, v < size))
+        S.inputs['mult_v'] = IX.Mult(t, v)
+        S.inputs['mult_v_minus_size'] = IX.Mult(t, v - size)
+        sc = cov.ghost['scatter']
+        U, C = sc['U'], sc['C']
+        ug = U.ghost.get('unique')
+        if ug is not None:
+            # lemma instances (trusted finite combinatorics, see theories/indexing.py)
+            S.assume(IX.sum_support(U.elems, C.elems, U.length, cov.length, v, ug['Pos'](v), ug['Pos'](v - size)))
+            S.assume(IX.pigeonhole(ug['UF'], ug['D'], to_z3(cov.length)))
+        goal = cov.elems[v] == IX.Mult(t, v) + IX.Mult(t, v - size)
+        S.oblige('post', goal, finding=F_ALIAS if alias_case == 1 else None,
+                 hint=z3.And(size == 2, n == 1, v == 1) if alias_case == 1 else None,
+                 tag='coverage[v]-is-the-number-of-entries-selecting-position-v' + (' (negative aliases present)' if alias_case else ''))
+    ck.explore(f'{IND}.TransposeIndexRule.apply', transpose_index, T, axioms=IX.mult_axioms(),
+               contracts={AXES: indexed_axes_contract, IX.DIAGONAL_INIT: IX.diagonal_init_contract})
+
+
 def build(ck):
     T = IX.theory()
     ck.assume_note('C12: index items are ints, slices, Ellipsis, integer arrays or boolean masks (the declared type of '
                    'IndexOperator.indices); None/newaxis and Python bools are outside the property')
     ck.assume_note('C12: in-bounds index expressions (the property\'s quantifier): entries of an integer index array lie '
                    'in [-size, size) of the indexed axis, the tuple addresses existing axes')
+    ck.trust('lemma:sum-support (a finite sum whose terms vanish outside two known positions equals the sum of those two terms)',
+             'lemma:pigeonhole (D values with pairwise distinct positions in [0, s) satisfy D <= s)')
+    ck.assume_note('C12: unique_indices=True passed by the caller is a truthful promise that no element is selected twice')
     ck.trust('lemma:count-threshold (Count(b) >= 0; >= 1 iff some position holds; >= 2 iff two distinct positions hold)',
              'lemma:LA5 a selection matrix times its adjoint is the identity iff no input element is selected twice')
     build_init(ck, T)
     build_axes(ck, T)
+    build_mv(ck, T)
+    build_rules(ck, T)
